@@ -70,7 +70,7 @@ class Prog:
             self.built[sh] = self.prog.build(self.ctx, self.cm, shared=sh)
         return self.built[sh]
 
-    def link(self, linker, kind, cfg, what):
+    def link(self, linker, kind, cfg, what, ref_with_opts=False):
         wd = self.ctx.scratch.dir("p", self.tag, f"{what}-{next(self._n)}")
         liblinker = None
         if kind == "shared" and linker == "wild" and cfg["liblinker"] == 1:
@@ -79,6 +79,11 @@ class Prog:
         if liblinker == "ld":
             # GNU ld has no --no-string-merge; the library is not under test in this configuration
             lib_args = []
+        if ref_with_opts:
+            # the reference linker under the same options (minus the one GNU ld does not have)
+            a = [x for x in cfg_args(cfg) if x != "-Wl,--no-string-merge"]
+            return pg.link_and_run(self.ctx, linker, self.prog, self.objs(kind), kind, extra_link_args=a, workdir=wd,
+                                   gc=bool(cfg["gc"]), exe_pie=(self.cm != "nopic"))
         return pg.link_and_run(self.ctx, linker, self.prog, self.objs(kind), kind, extra_link_args=cfg_args(cfg) if linker == "wild" else [],
                                workdir=wd, gc=bool(cfg["gc"]) if linker == "wild" else False, lib_linker=liblinker,
                                lib_link_args=lib_args, exe_pie=(self.cm != "nopic"))
@@ -172,6 +177,13 @@ def judge(ctx, P, kind, cfg, base_out, case):
                 if pc.outcome(lr2, ref, kind)[0] == "same":
                     option = LEVELS[f][cfg[f]][0]
                     break
+    if cfg is not BASE:
+        # calibration: GNU ld under the same options must still print the expected transcript
+        lrc = P.link("ld", kind, cfg, "ld-opts-" + kind, ref_with_opts=True)
+        if pc.outcome(lrc, ref, kind)[0] != "same":
+            ctx.note("reference-changes-behaviour-under:" + cfg_label(cfg, kn))
+            ctx.inconclusive("GNU ld itself does not print the expected transcript under these options")
+            return lr, cls, detail
     if cfg is BASE:
         # baseline failures are reported after all kinds of the program are known (kind=all when
         # every kind fails the same way)
@@ -203,7 +215,7 @@ def prepare(ctx, i):
     cm = r.choice(pg.CODE_MODELS)
     P = Prog(ctx, f"s{ctx.seed}i{i}", prog, cm)
     kinds = prog.kinds(cm)
-    ncfg = ctx.pick(9, 40)
+    ncfg = ctx.pick(9, 30)
     for k in sorted(prog.probe_kinds):
         ctx.note_set("probe-kinds", k)
     for f in sorted(prog.features):
@@ -336,7 +348,7 @@ def main(ctx):
                        "ld.lld 14 must agree with it before a difference is reported",
                        "transcripts contain only linker-independent outcomes (generator validated: ld == lld on 32 seeds x all kinds)"]
     tools.wild()
-    n = ctx.pick(20, 200)
+    n = ctx.pick(20, 100)
     progs = list(range(n))
     pins = list(PINNED)
     if ctx.replay is not None:
